@@ -10,7 +10,7 @@ def run():
     fam = evalfam.c03_binding_grid() + evalfam.c03_scope_family()
     res1, st1 = evalcheck.run_family(ck, "C03", fam, "families")
     g = evalfam.Gen(ck.rng, maxdepth=4 if thorough else 3)
-    rnd = [("random", g.program()) for _ in range(12000 if thorough else 2500)]
+    rnd = [("random", g.program()) for _ in range(60000 if thorough else 2500)]
     res2, st2 = evalcheck.run_family(ck, "C03", rnd, "random")
     ck.cov["families"] = st1
     ck.cov["random"] = st2
